@@ -167,10 +167,13 @@ def bytes_decorator(ctx, cfg):
     d = cfg["depth"]
     dg = _Digests(ctx, cfg.get("size", 16), "dg")
     f = H.hash_with_depth_bytes(lambda key, idx: dg.digest(key, idx))
+    for d0 in range(1, d):           # the same key asked for with increasing depths first (a strategy must not depend on earlier calls)
+        f(b"some key", d0)
+    dg.log.clear()
     res = f(b"some key", d)
     ctx.check(len(res) == d, "depth-length")
     ctx.check(ctx.and_([ctx.and_(ctx.ge(r, 0), ctx.lt(r, 2 ** 64)) for r in res]), "range64")
-    ctx.check(ctx.and_([ctx.eq(r, _le64(ctx, g)) for r, g in zip(res, dg.log)]), "bytes-decorator-le64")
+    ctx.check(ctx.and_([len(dg.log) == d] + [ctx.eq(r, _le64(ctx, g)) for r, g in zip(res, dg.log)]), "bytes-decorator-le64")
     rs = f("some key", d)
     ctx.check(len(rs) == d and ctx.fork(ctx.and_([ctx.eq(a, b) for a, b in zip(res, rs)])), "str==utf8-bytes")
     for d2 in range(1, d):
